@@ -109,7 +109,7 @@ def run(prog, rep, tier):
     if len(dcall) != 1:
         raise CheckerError("drop_data_try: %d calls of drop_data" % len(dcall))
     dcb = dcall[0].bb
-    ALLOWED_MSG = ("blockoffset_first", "blockoffset_last", "deref", "as_ref")
+    ALLOWED_MSG = ("blockoffset_first", "blockoffset_last", "fileoffset_begin", "fileoffset_end", "fileoffset_next", "deref", "as_ref")  # position queries
     shape_tests = []
     nctl = 0
     for sbb in sorted(tb_.live):
